@@ -3,7 +3,7 @@ CONSTANTS
   Export = FALSE
   Fams = {}
   SliceLo = 0
-  SliceHi = 255
+  SliceHi = 1023
 INIT Init
 NEXT Next
 INVARIANT Law
